@@ -16,15 +16,15 @@ int main(int argc, char** argv) {
 
   struct PropDef { const char* id; Body body; long quick_n; long thorough_n; bool variants; void (*extra)(Ctx&); };
   std::vector<PropDef> defs = {
-      {"C01", body_C01, 120, 3000, true, nullptr},
-      {"C03", body_C03, 200, 5000, true, extra_C03},
+      {"C01", body_C01, 600, 6000, true, nullptr},
+      {"C03", body_C03, 1500, 15000, true, extra_C03},
       {"C05", body_C05, 40, 1000, true, nullptr},
-      {"C06", body_C06, 60, 1500, true, nullptr},
-      {"C10", body_C10, 30, 600, true, nullptr},
-      {"C11", body_C11, 150, 4000, true, nullptr},
-      {"C02", body_C02, 300, 20000, true, nullptr},
-      {"C04", body_C04, 300, 20000, true, extra_C04},
-      {"C15", body_C15, 200, 5000, true, nullptr},
+      {"C06", body_C06, 300, 3000, true, nullptr},
+      {"C10", body_C10, 100, 1000, true, nullptr},
+      {"C11", body_C11, 1500, 20000, true, nullptr},
+      {"C02", body_C02, 2500, 40000, true, nullptr},
+      {"C04", body_C04, 2000, 40000, true, extra_C04},
+      {"C15", body_C15, 3000, 30000, true, nullptr},
   };
   const PropDef* d = nullptr;
   for (auto& x : defs) if (c.args.prop == x.id) d = &x;
